@@ -200,6 +200,13 @@ class BLOB(Element):
         )
 
     def set_value_from_message(self, msg):
-        blob_value = values.BLOB.from_base64(msg.value, msg.format)
-        assert msg.size == blob_value.size
+        try:
+            blob_value = values.BLOB.from_base64(msg.value or "", msg.format)
+            size_matches = int(msg.size) == blob_value.size
+        except (ValueError, TypeError):
+            logger.warning("BLOB %s: undecodable payload or size, ignored", self.name)
+            return
+        if not size_matches:
+            logger.warning("BLOB %s: declared size differs, ignored", self.name)
+            return
         self.set_value(blob_value)
